@@ -319,6 +319,8 @@ pub struct KeyState {
     /// block cleans / reopens seen when the current version was written
     pub cleans_at_write: usize,
     pub reopens_at_write: u32,
+    /// disk-only versions of the key that a lookup has returned (each may be re-offered to the disk tier by a late handle drop)
+    pub looked_up_disk_only: Vec<Stamp>,
     /// the key was cleared (destroy) and the store reopened since
     pub cleared: bool,
     pub cleared_then_reopened: bool,
@@ -482,6 +484,9 @@ impl Oracle {
                                     let ks = self.keys.entry(*k).or_default();
                                     if ks.disk_only {
                                         ks.looked_up = true;
+                                        if !ks.looked_up_disk_only.contains(s) {
+                                            ks.looked_up_disk_only.push(*s);
+                                        }
                                     }
                                 }
                                 Some(e) if self.reopens > st.reopens_at_write && o.cleans_after > st.cleans_at_write && s.writer < e.writer => {
@@ -491,7 +496,7 @@ impl Oracle {
                                         i,
                                     ))
                                 }
-                                Some(e) if st.requeue_race => self.findings.push((
+                                Some(e) if st.requeue_race || st.looked_up_disk_only.contains(s) => self.findings.push((
                                     "stale-old:disk-only-entry-requeued-after-lookup".to_string(),
                                     format!("{:?} returned {s:?} instead of {e:?}: the older disk-only version had been looked up while queued; a late handle drop re-offered it to the disk tier after the newer insert", o.op),
                                     i,
@@ -518,7 +523,7 @@ impl Oracle {
                                     format!("{:?} returned {s:?}: the entry was cleared (destroy) earlier, yet it is recovered after a later close+reopen", o.op),
                                     i,
                                 )),
-                                None if st.requeue_race => self.findings.push((
+                                None if st.requeue_race || st.looked_up_disk_only.contains(s) => self.findings.push((
                                     "stale-removed:disk-only-entry-requeued-after-lookup".to_string(),
                                     format!("{:?} returned {s:?}: a disk-only entry that was looked up and then removed came back (a late handle drop re-offered it to the disk tier)", o.op),
                                     i,
